@@ -39,7 +39,8 @@ type c07Scenario struct {
 	FailingWrite    bool       `json:"last_request_write_fails_while_its_answer_arrives,omitempty"`
 	UnsolicitedWait bool       `json:"handler_of_an_unsolicited_result_waits_for_its_own_request,omitempty"`   // client only: routes run on their own goroutines, so a handler may wait for an answer
 	BlockedExpire   bool       `json:"context_ends_while_the_write_is_blocked_then_the_write_fails,omitempty"` // a request whose write is held up by a peer that does not read, whose context ends meanwhile and whose write then fails (connection reset); the next session's request must still get its answer
-	HandlerIQ       int        `json:"handler_sends_iq"`                                                       // number of server requests whose handler issues a SendIQ of its own
+	ClashingIDs     bool       `json:"two_pending_requests_with_one_id,omitempty"`
+	HandlerIQ       int        `json:"handler_sends_iq"` // number of server requests whose handler issues a SendIQ of its own
 }
 
 type c07Resp struct {
@@ -81,6 +82,7 @@ func runC07(e *Engine, g G, o RunOpt) RunInfo {
 	sc.AcrossReconnect = !sc.Component && g.Pct("across-reconnect", 15)
 	sc.FailingWrite = !sc.AcrossReconnect && g.Pct("failing-write", 12)
 	sc.BlockedExpire = !sc.Component && !sc.AcrossReconnect && !sc.FailingWrite && g.Pct("blocked-expire", 12)
+	sc.ClashingIDs = !sc.BlockedExpire && !o.Avoiding("two-pending-requests-with-one-id") && g.Pct("clashing-ids", 12)
 	sc.UnsolicitedWait = !sc.Component && g.Pct("unsolicited-wait", 15)
 	if g.Pct("handler-iq", 30) {
 		sc.HandlerIQ = g.Range("handler-iq-n", 1, 3)
@@ -630,6 +632,101 @@ func runC07(e *Engine, g G, o RunOpt) RunInfo {
 						}
 					}
 				}
+			}
+		}
+		if sc.ClashingIDs && !conn.Dead {
+			// Two requests with the same id are pending at once (ids are the application's; a counter
+			// restarted, two modules counting on their own). The peer answers both. Which answer belongs to
+			// which request nobody can tell - but while a request with that id is pending, a response with
+			// that id is its answer, not a packet for the ordinary routes; every response is consumed once,
+			// no channel delivers twice, nothing crashes.
+			type clashGot struct {
+				from   string
+				n      int
+				closed bool
+			}
+			cg := make([]clashGot, 2)
+			cdone := 0
+			cok := 0
+			for k := 0; k < 2; k++ {
+				k := k
+				e.Go(fmt.Sprintf("clash%d", k), func() {
+					defer func() { cdone++ }()
+					iq, _ := stanza.NewIQ(stanza.Attrs{Type: stanza.IQTypeGet, Id: "qc", To: SimDomain})
+					iq.Payload = &stanza.Version{}
+					ctx, cancel := context.WithCancel(context.Background())
+					defer cancel()
+					var ch chan stanza.IQ
+					err, _ := e.Call(fmt.Sprintf("SendIQ qc (#%d of two with this id)", k), func() error {
+						var err error
+						ch, err = sender.SendIQ(ctx, iq)
+						return err
+					})
+					if err != nil || ch == nil {
+						return
+					}
+					cok++
+					tm := time.After(12*time.Second + time.Duration(47+k)*time.Microsecond)
+					for {
+						select {
+						case v, ok := <-ch:
+							e.Yield("clash.read")
+							if !ok {
+								cg[k].closed = true
+								return
+							}
+							cg[k].n++
+							cg[k].from = v.From
+							e.Logf("app.recv", "clash#%d got iq id=%s from=%s", k, v.Id, v.From)
+						case <-tm:
+							e.Yield("clash.timeout")
+							return
+						}
+					}
+				})
+			}
+			nreq := func() int {
+				n := 0
+				for _, r := range conn.Elements() {
+					if el := r.Item.Elem; el.Local == "iq" && el.Attr("id") == "qc" && el.Attr("type") == "get" {
+						n++
+					}
+				}
+				return n
+			}
+			if !e.WaitUntilFor("clash-requests", 30*time.Second, func() bool { return nreq() == 2 && cok == 2 }) {
+				for k := 1; k <= 2; k++ {
+					conn.Send(fmt.Sprintf("<iq id='qc' type='result' from='clash%d@%s'><query xmlns='jabber:iq:version'><name>n</name></query></iq>", k, SimDomain))
+					e.Sleep(time.Second + 3*time.Microsecond)
+				}
+				e.WaitUntilFor("clash-readers", time.Minute, func() bool { return cdone == 2 })
+				routed := map[string]int{}
+				for _, h := range *handled {
+					if h.Kind == "iq" && strings.HasPrefix(h.From, "clash") {
+						routed[h.From]++
+					}
+				}
+				for k := 0; k < 2; k++ {
+					if cg[k].n > 1 {
+						e.Violate("C07", "channel-delivered-twice:clashing-ids", "request #%d of two pending with id qc got %d values on its channel", k, cg[k].n)
+					}
+				}
+				for m := 1; m <= 2; m++ {
+					from := fmt.Sprintf("clash%d@%s", m, SimDomain)
+					inChan := 0
+					for k := 0; k < 2; k++ {
+						if cg[k].from == from {
+							inChan++
+						}
+					}
+					switch {
+					case inChan+routed[from] > 1:
+						e.Violate("C07", "delivered-and-routed:clashing-ids", "response %s to id qc was consumed %d times (channels %d, ordinary handlers %d)", from, inChan+routed[from], inChan, routed[from])
+					case inChan == 0:
+						e.Violate("C07", "response-missed-caller:clashing-ids", "two requests with id qc were pending, the peer answered both; response %s reached no caller (ordinary handlers: %d) - callers got %q and %q", from, routed[from], cg[0].from, cg[1].from)
+					}
+				}
+				e.Probe("c07.two_pending_requests_with_one_id")
 			}
 		}
 		// end every context that is still open
